@@ -68,15 +68,24 @@ Section C09.
 
   (* limit: the first `limit` entries of the flat input for every batching; 0 = no limit.  sem_limit is also what the
      ClickHouse path does with ctx.Limit (no LIMIT clause for 0, LIMIT n otherwise): the parameter means the same thing
-     on both paths.                                                                                                       *)
-  Theorem limit_same_meaning : forall c bs, 0 <= c_limit c ->
+     on both paths.  No hypothesis on the limit: a negative one (the controller passes whatever ParseInt read) sends
+     nothing in process, where the ClickHouse path sends `LIMIT -n` to the server.                                        *)
+  Theorem limit_same_meaning : forall c bs,
     List.concat (run_stage c (SLimit V) bs) = sem_limit V (c_limit c) (List.concat bs).
-  Proof.
-    intros c bs H. cbn [InternalEngine.run_stage]. unfold sem_limit.
-    destruct (Z.eqb_spec (c_limit c) 0) as [E|E].
-    - rewrite E. now rewrite wrap_limit_zero.
-    - rewrite (wrap_limit_pos V v0 panic_kills (c_limit c)) by lia. now rewrite Z.sub_0_r.
-  Qed.
+  Proof. exact (limit_agrees V v0 v1 vadd vdiv vltb vleb veqb vofZ panic_kills fpf re_match pfloat parse tmpl). Qed.
+
+  (* the side effect of the limit stage: ctx.CancelCtx (which cancels the ClickHouse query feeding the chain) is called
+     exactly when the limit is positive and the entries that arrived fill it, for every batching; never for 0 or a negative limit *)
+  Theorem limit_cancels_exactly_when_filled : forall c bs,
+    limit_cancelled V c bs = (0 <? c_limit c) && (c_limit c <=? Z.of_nat (List.length (List.concat bs))).
+  Proof. exact (limit_cancelled_iff V). Qed.
+
+  (* ... and the cancellation loses nothing: whatever the upstream could still have sent after the stage cancelled it
+     would not have changed a single entry of what the stage sends *)
+  Theorem cancel_loses_nothing : forall c bs more,
+    limit_cancelled V c bs = true ->
+    List.concat (run_stage c (SLimit V) (bs ++ more)) = List.concat (run_stage c (SLimit V) bs).
+  Proof. exact (cancel_loses_nothing V v0 v1 vadd vdiv vltb vleb veqb vofZ panic_kills fpf re_match pfloat parse tmpl). Qed.
 
   (* range and vector aggregations (LRA, unwrap aggregations, sum/min/max/avg/count): the batches sent are literally the
      same for every batching of the input, error and panic outcomes included                                              *)
@@ -95,7 +104,7 @@ Section C09.
      by its terminator, in ANY batching, the stage sends the entries the reference semantics prescribes — same
      timestamps, label sets, lines and values in the same order (the fingerprint is not part of the definition) *)
   Theorem stage_meets_definition_simple_stages : forall c s rows t bs,
-    0 <= c_limit c -> simple_stage V s = true ->
+    simple_stage V s = true ->
     Forall (data_row V) rows -> Forall (terminator V) t -> List.concat bs = rows ++ t ->
     map (erase V) (data_of V (List.concat (run_stage c s bs))) = map (erase V) (sem_stage c s rows).
   Proof. exact (stage_agrees V v0 v1 vadd vdiv vltb vleb veqb vofZ panic_kills fpf re_match pfloat parse tmpl). Qed.
@@ -105,7 +114,7 @@ Section C09.
      simple stages, every stream of data rows with its terminator and EVERY batching of it into channel messages, the
      data entries that leave the in-process chain are those of the reference semantics.                                  *)
   Theorem engines_agree : forall c ch rows t bs,
-    0 <= c_limit c -> forallb (simple_stage V) ch = true ->
+    forallb (simple_stage V) ch = true ->
     Forall (data_row V) rows -> Forall (terminator V) t -> List.concat bs = rows ++ t ->
     map (erase V) (data_of V (List.concat (run_chain c ch bs))) = map (erase V) (sem_chain c ch (List.concat bs)).
   Proof. exact (chain_agrees V v0 v1 vadd vdiv vltb vleb veqb vofZ panic_kills fpf re_match pfloat parse tmpl). Qed.
@@ -157,6 +166,8 @@ Print Assumptions batching_invariant_by_without.
 Print Assumptions batching_invariant_line_format.
 Print Assumptions batching_invariant_parser.
 Print Assumptions limit_same_meaning.
+Print Assumptions limit_cancels_exactly_when_filled.
+Print Assumptions cancel_loses_nothing.
 Print Assumptions batching_invariant_aggregation.
 Print Assumptions batching_invariant_optimizer.
 Print Assumptions stage_meets_definition_simple_stages.
